@@ -611,13 +611,13 @@ Theorem C11_success_implies_no_double : forall (P : Type) (truthy : P -> bool) (
 Proof. exact @zcp_ok_no_double. Qed.
 Print Assumptions C11_success_implies_no_double.
 
-(* conversely a request that validate_constraints accepts is not rejected by the decomposition when: order >= 1, inner budget
-   >= 1, exactly n initial factors, and - unless the outer budget is 0 - the last mode is updated (C11_last_mode_updated: always
+(* conversely a request that validate_constraints accepts is not rejected by the decomposition when: order >= 1, exactly n initial
+   factors (every inner budget: 0 returns the initialisation since fix fe4edf7), and - unless the outer budget is 0 - the last mode is updated (C11_last_mode_updated: always
    when fixed_modes has no repeated entry), whatever the environment ... *)
 Theorem C11_valid_request_returns : forall (P : Type) (truthy : P -> bool) (M : Type) (dM : M)
   (op : kind -> P -> M -> M) (msub madd : M -> M -> M) (n : nat) (sp : list (kind * @zspec P)) (tab : @table P)
   (E : env (M := M)) (i0 : init (M := M)) (fixed : list nat) (n_outer n_inner : nat) (zero : M),
-  zvalidate_table truthy n sp = Ok tab -> 0 < n -> 0 < n_inner -> length (init_factors i0) = n ->
+  zvalidate_table truthy n sp = Ok tab -> 0 < n -> length (init_factors i0) = n ->
   n_outer = 0 \/ In (n - 1) (modes_list n fixed) ->
   exists fs, constrained_cp dM op (zvalidate truthy n sp) msub madd E n i0 fixed n_outer n_inner zero = Ok fs.
 Proof. exact @zcp_valid_request_returns. Qed.
@@ -628,7 +628,7 @@ Print Assumptions C11_valid_request_returns.
 Theorem C11_decomposition_rejects_iff : forall (P : Type) (truthy : P -> bool) (M : Type) (dM : M)
   (op : kind -> P -> M -> M) (msub madd : M -> M -> M) (n : nat) (sp : list (kind * @zspec P)) (E : env (M := M))
   (i0 : init (M := M)) (fixed : list nat) (n_outer n_inner : nat) (zero : M),
-  zwf_specs sp -> 0 < n -> 0 < n_inner -> length (init_factors i0) = n -> n_outer = 0 \/ In (n - 1) (modes_list n fixed) ->
+  zwf_specs sp -> 0 < n -> length (init_factors i0) = n -> n_outer = 0 \/ In (n - 1) (modes_list n fixed) ->
   (constrained_cp dM op (zvalidate truthy n sp) msub madd E n i0 fixed n_outer n_inner zero = Err <->
    zdouble truthy n sp \/ zself_alias n sp \/ zno_mode truthy n sp).
 Proof. exact @zcp_err_iff. Qed.
@@ -794,12 +794,12 @@ Example C11_user_init_zero_budget_not_projected :
   = Ok [101; 101; 101].
 Proof. repeat split; vm_compute; reflexivity. Qed.
 
-(* ... and the same class with the REAL operators, for EVERY outer budget, inner budget >= 1 and environment (C11_..._refuted: the headline
+(* ... and the same class with the REAL operators, for EVERY outer budget, inner budget and environment (C11_..._refuted: the headline
    clause 'for any initialisation' fails on it): non_negative=True on every mode, a user CP tensor whose first factor has a negative entry,
    fixed_modes=[0] - the run succeeds and factor 0 comes back as supplied, not non-negative.  The statement that holds is C11_skeleton /
    C11_returned_factor_feasible (computed initialisation, or the mode is updated with outer budget >= 1). *)
 Theorem C11_user_init_fixed_mode_refuted : forall (other : kind -> nat -> mat -> mat) (E : env (M := mat)) (msub madd : mat -> mat -> mat)
-  (n_outer n_inner : nat), 0 < n_inner ->
+  (n_outer n_inner : nat),
   let sp := zkeywords (fun k => match k with KNonNeg => ZScalar 1 | _ => ZNone end) in
   let A : mat := [[-1; 2]; [3; 4]]%R in
   exists fs, constrained_cp [] (op_c12 INR (fun p => p) other) (zvalidate nat_truthy' 3 sp) msub madd E 3 (IUser [A; A; A]) [0] n_outer n_inner [] = Ok fs /\
